@@ -66,6 +66,48 @@ func runC01(env *Env, rc *RunCtx) {
 		c.Query = Tuple{NS: "Doc", Obj: []string{"d0", "d1"}[t.Choose(2)], Rel: []string{pv, ph}[t.Choose(2)], Sub: Subject{ID: fmt.Sprintf("u%d", t.Choose(2))}}
 		c.Conforming = true
 		rc.Count("probe_same_object_name_in_two_namespaces", 1)
+	} else if t.Bool(1, 10) {
+		// one case in ten: the stored relationships are a MULTISET. Intersections
+		// (also negated, nested and reached through permits) over relations that hold
+		// the same relationship zero to three times, for some operands but not all
+		inc := func(r string) *Expr { return &Expr{Kind: ExIncludes, Rel: r} }
+		and := func(es ...*Expr) *Expr { return &Expr{Kind: ExAnd, Children: es} }
+		ty := []TypeRef{{NS: "U"}, {NS: "Grp", Rel: "members"}}
+		doc := &NSDef{Name: "Doc", Rels: []*RelDef{{Name: "a", Types: ty}, {Name: "b", Types: ty}, {Name: "c", Types: ty},
+			{Name: "p2", Rewrite: and(inc("a"), inc("b"))},
+			{Name: "p3", Rewrite: and(inc("a"), inc("b"), inc("c"))},
+			{Name: "n2", Rewrite: &Expr{Kind: ExNot, Children: []*Expr{and(inc("a"), inc("b"))}}},
+			{Name: "pp", Rewrite: and(&Expr{Kind: ExPermits, Rel: "p2"}, inc("c"))},
+			{Name: "po", Rewrite: &Expr{Kind: ExOr, Children: []*Expr{and(inc("b"), inc("c")), and(inc("a"), inc("c"))}}}}}
+		enc := c.Cfg.Enc
+		if enc == EncNone {
+			enc = EncOPL
+		}
+		strict := c.Cfg.Strict
+		if enc == EncOPL || enc == EncOPLMin {
+			strict = t.Bool(1, 2)
+		}
+		c.Cfg = &Config{Enc: enc, Strict: strict, NS: []*NSDef{{Name: "U"}, {Name: "Grp", Rels: []*RelDef{{Name: "members", Types: []TypeRef{{NS: "U"}}}}}, doc}}
+		c.Tuples = nil
+		sub := Subject{ID: fmt.Sprintf("u%d", t.Choose(2))}
+		for _, r := range []string{"a", "b", "c"} {
+			k := t.Weighted(3, 2, 3, 1) // copies of the direct relationship
+			for i := 0; i < k; i++ {
+				c.Tuples = append(c.Tuples, Tuple{NS: "Doc", Obj: "d0", Rel: r, Sub: sub})
+			}
+			if t.Bool(1, 4) {
+				c.Tuples = append(c.Tuples, Tuple{NS: "Doc", Obj: "d0", Rel: r, Sub: Subject{Set: &SetRef{NS: "Grp", Obj: "g", Rel: "members"}}})
+			}
+			if t.Bool(1, 4) {
+				c.Tuples = append(c.Tuples, Tuple{NS: "Doc", Obj: "d0", Rel: r, Sub: Subject{ID: "u2"}})
+			}
+		}
+		for i := 0; i < t.Choose(3); i++ {
+			c.Tuples = append(c.Tuples, Tuple{NS: "Grp", Obj: "g", Rel: "members", Sub: sub})
+		}
+		c.Query = Tuple{NS: "Doc", Obj: "d0", Rel: []string{"p2", "p3", "n2", "pp", "po"}[t.Choose(5)], Sub: sub}
+		c.Conforming = true
+		rc.Count("probe_duplicates_below_intersection", 1)
 	}
 	rc.Rec.CaseHash = fmt.Sprintf("%016x", c.Hash())
 	ref := RefCheck(c.Cfg, c.Tuples, c.Query)
